@@ -109,8 +109,14 @@ func hiMinusLow(h, l ssa.Value, depth int) int64 {
 	return inf
 }
 
+var lenBoundProgram *Program
+
 // lenUpperBound: an upper bound on len(v) at a loop whose header is hdr.
 func lenUpperBound(v ssa.Value, hdr *ssa.BasicBlock) int64 {
+	return lenUpperBoundD(v, hdr, 0)
+}
+
+func lenUpperBoundD(v ssa.Value, hdr *ssa.BasicBlock, depth int) int64 {
 	switch x := v.(type) {
 	case *ssa.Slice:
 		if x.High == nil {
@@ -155,6 +161,33 @@ func lenUpperBound(v ssa.Value, hdr *ssa.BasicBlock) int64 {
 				return c - 1
 			}
 		}
+		// no guard here: the bound may come from the call sites (a packing helper called with short slices)
+		if lenBoundProgram != nil && depth < 2 {
+			fn := x.Parent()
+			idx := paramIndex(fn, x)
+			if fn.Object() == nil || fn.Object().Exported() || idx < 0 {
+				return inf
+			}
+			worst, n := int64(0), 0
+			for _, caller := range lenBoundProgram.ModuleFuncsSorted() {
+				for _, b := range caller.Blocks {
+					for _, ins := range b.Instrs {
+						c, ok := ins.(ssa.CallInstruction)
+						if !ok || c.Common().StaticCallee() != fn || idx >= len(c.Common().Args) {
+							continue
+						}
+						n++
+						bnd := lenUpperBoundD(c.Common().Args[idx], b, depth+1)
+						if bnd > worst {
+							worst = bnd
+						}
+					}
+				}
+			}
+			if n > 0 {
+				return worst
+			}
+		}
 	}
 	return inf
 }
@@ -164,6 +197,7 @@ var expSym = regexp.MustCompile(`^exp\((\d+),(iv\d+)\)$`)
 func rulesC10(cx *Ctx) []Obligation {
 	var obs []Obligation
 	P := cx.P
+	lenBoundProgram = P
 	r := cx.Entry("poseidon", "(*BN254Chip).HashOrNoop")
 	if r == nil {
 		return []Obligation{undecided("C10/anchor", "poseidon.BN254Chip.HashOrNoop exists", "not found")}
@@ -249,8 +283,27 @@ func rulesC10(cx *Ctx) []Obligation {
 		}
 		packs = append(packs, pk)
 	}
-	if len(packs) < 2 {
-		obs = append(obs, undecided("C10/pack/floor", "the limb-packing accumulators of HashNoPad and HashOrNoop are found", fmt.Sprintf("%d found, 2 confirmed by hand", len(packs))))
+	// both hashing entry points pack through a verified accumulator: their own, or one in a helper they call
+	for _, en := range []string{"(*BN254Chip).HashNoPad", "(*BN254Chip).HashOrNoop"} {
+		ef := P.Func("poseidon", en)
+		has := false
+		for _, pk := range packs {
+			if pk.fn == ef {
+				has = true
+			}
+			if ef != nil && pk.fn != nil && pk.fn != ef {
+				for _, b := range ef.Blocks {
+					for _, ins := range b.Instrs {
+						if c, ok := ins.(ssa.CallInstruction); ok && c.Common().StaticCallee() == pk.fn {
+							has = true
+						}
+					}
+				}
+			}
+		}
+		if !has {
+			obs = append(obs, undecided("C10/pack/floor", "the limb-packing accumulators of HashNoPad and HashOrNoop are found", "no packing accumulator in or directly under "+en))
+		}
 	}
 	for _, pk := range packs {
 		name := "?"
